@@ -471,7 +471,11 @@ func (iv integerValue) ToString(b io.Writer, s px.FormatContext, g px.RDetect) {
 		if f.IsAlt() && longVal != 0 && !(f.FormatChar() == 'o' && zeroPad > 0) {
 			pfx = integerPrefixRadix(f.FormatChar())
 		}
-		computedFieldWidth := len(sign) + len(pfx) + intMax(numWidth, len(intString))
+		if f.IsZeroPad() && !f.IsLeft() && f.Precision() < 0 && f.FormatChar() != 'p' {
+			// Pad with zeroes to the width. The zeroes follow the sign and the prefix
+			zeroPad = totWidth - len(sign) - len(pfx) - len(intString)
+		}
+		computedFieldWidth := len(sign) + len(pfx) + len(intString) + intMax(zeroPad, 0)
 
 		spacePad := totWidth - computedFieldWidth
 		if !f.IsLeft() {
